@@ -34,6 +34,9 @@ EXT_RAISES = {
     'MutableMapping.keys': set(), 'MutableMapping.values': set(),
     'MutableMapping.__contains__': set(),
     'Pattern.search': set(),
+    'dict.__setitem__': set(), 'dict.__init__': set(), 'dict.update': set(),
+    'dict.__getitem__': {'KeyError'}, 'dict.__delitem__': {'KeyError'},
+    'os.urandom': set(),
     'ValueError.__init__': set(), 'super.__init__': set(),
     'object.__init__': set(), 'Exception.__init__': set(),
     're.compile': set(),
@@ -637,6 +640,8 @@ class Raises:
         if name in CONSUMERS:
             for a in call.args:
                 self._consume(fi, a, call, frames, out)
+                # list(x) / tuple(x) ... of an h2 object runs its iterator
+                self._iter_protocol(fi, a, call, frames, out)
         if name == 'int':
             # int(text, base), or int(x) of something that is not known to
             # be a number: ValueError
